@@ -448,4 +448,72 @@ theorem C09_cache_transparent_paths (g : Gen) (fuel : Nat) (root : Node) (paths 
     pathRun g fuel root [] paths = paths.map (subkeyForPath g fuel root) :=
   pathRun_eq paths [] (fun _ _ h => by cases h)
 
+/-! ## non-vacuity: the hypotheses of the implications above hold on concrete inputs
+
+`#guard`s are evaluations (tests), not theorems.  BIP32 test vector 1 (seed `000102…0f`) over the shipped curve, blinding
+factor 0: the generator constructs; the master node is `Valid`; for index 1 the first loop iteration succeeds
+(fuel 1 is enough: `I_L < n`, child `≠ 0` — the hypothesis of `C09_ckd_commute`); public and private derivation
+commute; a hardened child of the public copy is refused; the text form is the vector's and parses back. -/
+namespace Demo
+open Pycoin.Electrum
+
+def seed1 : Bytes := [0x00, 0x01, 0x02, 0x03, 0x04, 0x05, 0x06, 0x07, 0x08, 0x09, 0x0a, 0x0b, 0x0c, 0x0d, 0x0e, 0x0f]
+
+def withMaster (f : Gen → Node → Bool) : Bool :=
+  match Gen.new Pycoin.Gen.Curves.secp256k1 0 with
+  | .error _ => false
+  | .ok g =>
+    match fromMasterSecret g .bip32 seed1 with
+    | .error _ => false
+    | .ok m => f g m
+
+def isOk {ε α} : Except ε α → Bool
+  | .ok _ => true
+  | .error _ => false
+
+-- the master node is what its constructor returns on its own fields (`Node.Valid`), private, depth 0
+#guard withMaster fun g m =>
+  m.secretExponent.isSome && m.depth == 0 &&
+  (match m.secretExponent with
+   | some se => mkNode g m.kind m.chainCode m.depth m.parentFingerprint m.childIndex (.priv se) == .ok m
+   | none => false)
+
+-- first iteration succeeds (fuel 1), hardened and not, at the 2^24 boundary; commutation with going public
+#guard withMaster fun g m =>
+  match subkeyRaw g 1 m 16777216 false true, subkeyRaw g 1 m 16777216 true true, m.publicCopy g with
+  | .ok child, .ok hchild, .ok mpub =>
+    child.childIndex == 16777216 && hchild.childIndex == 16777216 + 2 ^ 31 && child.depth == 1 &&
+    subkeyRaw g 1 mpub 16777216 false false == child.publicCopy g &&
+    subkeyRaw g 1 mpub 16777216 true false == .error .mismatch
+  | _, _, _ => false
+
+-- text form: BIP32 test vector 1, chain m; round trip on BTC
+#guard withMaster fun g m =>
+  match hwif Pycoin.Gen.Networks.net_btc m true, hwif Pycoin.Gen.Networks.net_btc m false with
+  | some (.ok prv), some (.ok pub) =>
+    prv == "xprv9s21ZrQH143K3QTDL4LXw2F7HEK3wJUD2nW2nRk4stbPy6cq3jPPqjiChkVvvNKmPGJxWUtg6LnF5kejMRNNU3TGtRBeJgk33yuGBxrMPHi".toUTF8.toList &&
+    pub == "xpub661MyMwAqRbcFtXgS5sYJABqqG9YLmC4Q1Rdap9gSE8NqtwybGhePY2gZ29ESFjqJoCu1Rupje8YtGqsefD265TMg7usUDFdp6W1EGMcet8".toUTF8.toList &&
+    parseBip g Pycoin.Gen.Networks.net_btc .bip32 prv == .ok (some m) &&
+    parseBip g Pycoin.Gen.Networks.net_btc .bip32 pub == (m.publicCopy g).map some
+  | _, _ => false
+
+-- a call history on one node: answers equal the uncached ones
+#guard withMaster fun g m =>
+  let calls : List (Int × Bool × Option Bool) := [(0, false, some false), (0, false, some true), (0, false, none), (0, true, some false), (0, false, some false)]
+  subkeyRun g 1 m [] calls == calls.map fun q => subkey0 g 1 m q.1 q.2.1 q.2.2
+
+-- Electrum: a private wallet, its subkey, and the public copy's subkey
+#guard
+  match Gen.new Pycoin.Gen.Curves.secp256k1 0 with
+  | .error _ => false
+  | .ok g =>
+    match mkWallet g (.masterPrivateKey 12345) with
+    | .error _ => false
+    | .ok w =>
+      match w.subkey g "7/1".toList, w.publicCopy g with
+      | .ok w', .ok wp => wp.subkey g "7/1".toList == w'.publicCopy g && w'.secretExponent.isSome
+      | _, _ => false
+
+end Demo
+
 end Pycoin.BIP32
